@@ -576,6 +576,11 @@ class Sample(Contract):
         s = Obj("SMCSampler", {"xp": Sym(z3.Const("sampler_xp", Misc), "ns"), "dtype": Sym(z3.Const("sampler_dtype", Misc), "dtype"),
                                "rng": Sym(z3.Const("sampler_rng", Misc), "rng"), "sampler_kwargs": PyDict({"n_steps": IV(5)}),
                                "history": NONE, "_adapative_target_efficiency": B(False)})
+        # what the constructor leaves in `history` (None in the pinned tree): taken from the real __init__ chain, most derived assignment first
+        for owner, meth, expr in I.front.instance_attr_values("SMCSampler", "history"):
+            if meth == "__init__" and expr is not None:
+                s.f["history"] = I.eval_in_module(expr, I.front.classes[owner].module)
+                break
         if not shape["resume_from"] and p.choose(2, "sampler-reused") == 1:
             # the sampler object has been used before: it still carries the history of that earlier call (any lengths, any contents)
             old = {}
